@@ -11,7 +11,7 @@ MODEL_TARGETS = ["Model/Counts.vo"]
 GEN_FILES = ["Gen/CountsGen.v"]
 CASE_HEADER = "From Coq Require Import List ZArith.\nFrom EV Require Import PySlice CountsGen Counts.\nImport ListNotations.\n"
 RULE = ("random sets of 1..5 state trajectories (lengths 1..10, incl. shorter than the lag), 2..5 states, lag 1..6, "
-        "both window modes, explicit/inferred state count, trailing -1 padding; each case is run on the real "
+        "both window modes, explicit/inferred state count, trailing -1 padding, a quarter of the cases in int8/uint8/int16/int32 with state ids near n_states^2 overflow; each case is run on the real "
         "assigns_to_counts as RaggedArray, as -1-padded ndarray, with the trajectories reversed and split in two "
         "halves; non-trivial := at least one trajectory longer than the lag and >= 2 distinct states")
 TRUSTED = ["translator/tr_counts.py (slice expressions of _transitions_helper -> PySlice.slice_list)",
@@ -32,8 +32,19 @@ def generate(rng, tier):
         ntr = rng.randint(1, 5)
         trjs = [[rng.randrange(ns) for _ in range(rng.choice([1, 1, 2, 3, 4, 5, 6, 7, 8, 10]))] for _ in range(ntr)]
         lag = rng.choice([1, 1, 2, 2, 3, 3, 4, 5, 6])
-        cases.append({"trjs": trjs, "lag": lag, "sliding": rng.random() < 0.5,
-                      "maxn": rng.choice([None, None, ns, ns + 2])})
+        c = {"trjs": trjs, "lag": lag, "sliding": rng.random() < 0.5,
+             "maxn": rng.choice([None, None, ns, ns + 2])}
+        if rng.random() < 0.25:
+            # narrow integer dtypes with state ids near their limits (n_states^2 overflows the dtype)
+            c["dtype"] = rng.choice(["int8", "uint8", "int16", "int32"])
+            big = {"int8": rng.randint(12, 20), "uint8": rng.randint(17, 24), "int16": rng.randint(5, 12),
+                   "int32": rng.randint(5, 12)}[c["dtype"]]
+            for t in trjs:
+                for i in range(len(t)):
+                    if rng.random() < 0.4:
+                        t[i] = big - rng.randrange(3)
+            c["maxn"] = rng.choice([None, big + 1])
+        cases.append(c)
     if tier == "thorough":
         # exhaustive small scope: <= 2 trajectories of length <= 4 over 2 states, lag <= 4, both modes
         import itertools
@@ -59,10 +70,13 @@ def run_impl(c):
     trjs, lag, sl, maxn = c["trjs"], c["lag"], c["sliding"], c["maxn"]
     kw = dict(max_n_states=maxn, sliding_window=sl)
     L = max(len(t) for t in trjs)
-    padded = np.array([t + [-1] * (L - len(t)) for t in trjs])
-    res = {"ragged": _call(assigns_to_counts, RaggedArray(trjs), lag, **kw),
+    dt = c.get("dtype", "int64")
+    pdt = dt if not dt.startswith("u") else "int64"      # -1 padding needs a signed type
+    padded = np.array([t + [-1] * (L - len(t)) for t in trjs], dtype=pdt)
+    rows = [np.array(t, dtype=dt) for t in trjs]
+    res = {"ragged": _call(assigns_to_counts, RaggedArray(rows), lag, **kw),
            "padded": _call(assigns_to_counts, padded, lag, **kw),
-           "reversed": _call(assigns_to_counts, RaggedArray(trjs[::-1]), lag, **kw)}
+           "reversed": _call(assigns_to_counts, RaggedArray(rows[::-1]), lag, **kw)}
     if len(trjs) >= 2:
         n = maxn if maxn is not None else max(max(t) for t in trjs) + 1
         h = len(trjs) // 2
@@ -123,9 +137,11 @@ def nontrivial(c, r):
 
 def tags(c, r):
     t = ["sliding" if c["sliding"] else "strided", "maxn-given" if c["maxn"] is not None else "maxn-inferred"]
+    if "dtype" in c:
+        t.append("narrow-dtype")
     if any(len(x) <= c["lag"] for x in c["trjs"]):
         t.append("traj-shorter-than-lag")
     return t
 
 
-ESSENTIAL_TAGS = ["sliding", "strided", "traj-shorter-than-lag", "maxn-inferred"]
+ESSENTIAL_TAGS = ["sliding", "strided", "traj-shorter-than-lag", "maxn-inferred", "narrow-dtype"]
